@@ -922,12 +922,14 @@ def takes_whole_input(ctx, k):
     string without an upper bound on its length, or an alternative on ``unparsed_length`` whose non-empty branch ends that way
     (and whose other branch is empty: nothing was left). Anything else: not known (False)"""
     from ..values import show
-    if k.is_subclass_of('VariantParsableExact'):
-        pf = k.resolve('_parse')
-        if pf is not None and pf.cls is not None and pf.cls.name == 'VariantParsableExact':
-            src = ast.unparse(pf.node)
-            if 'parse_exact_size' in src and 'parse_immutable' not in src and 'len(parsable)' in src:
-                return True             # every variant is parsed with the exact size primitive
+    try:
+        val = ctx.canon.layout(k, 'parse').result.value
+        pairs = list(val.args) if isinstance(val, Sym) and val.op == 'phi' else [val]
+        if pairs and all(isinstance(a, tuple) and len(a) == 2 and isinstance(a[1], Sym) and a[1].op == 'len' and isinstance(a[1].args[0], InputV)
+                         for a in pairs):
+            return True                 # every return reports len(parsable): success means the whole input was taken (exact size variants)
+    except Exception:       # pylint: disable=broad-except
+        pass
     try:
         cn = ctx.canon.canon(k, 'parse')
     except Exception:       # pylint: disable=broad-except
